@@ -114,6 +114,18 @@ def minimise(res, violation, timeout=120.0):
     stats["tests"] += t
     ops, t = ddmin(spec, ops, cfg, sig, timeout, max_tests=100)
     stats["tests"] += t
+    if res["prop"] == "C18":
+        from . import c18sim
+
+        while True:
+            cands = c18sim.drop_entry_candidates(ops)
+            if not cands:
+                break
+            stats["tests"] += len(cands)
+            j = _first_failing(spec, cands, cfg, sig, timeout)
+            if j is None:
+                break
+            ops = cands[j]
     v = _fails(spec, ops, cfg, sig, timeout) or v0
     stats["ops_after"] = len(ops)
     return ops, cfg, v, stats
